@@ -35,6 +35,7 @@ variable {T P C A Dc : Type}
 
 def mDenote (S : MSem T P C A Dc) : MPrim → MSt P C A Dc → MSt P C A Dc
   | .allocDcrit, s | .allocTmp, s | .warn, s | .setup, s | .advT _, s => s
+  | .part2 _, s => s   -- coarse replay marker only; no theorem mentions it
   | .toDh, s => { s with p := S.toDhP s.p, c := S.toDhC s.p }
   | .toInertial, s => { s with p := S.toI s.p s.c }
   | .dcrit, s => { s with d := S.dcrit s.p }
